@@ -17,6 +17,14 @@ import (
 
 var verifT0 = time.Unix(1000000000, 0)
 
+// temp dirs live next to $VERIF_OUT (the check's scratch dir under /var/tmp), never in /tmp
+func verifScratch() string {
+	if o := os.Getenv("VERIF_OUT"); o != "" {
+		return filepath.Dir(o)
+	}
+	return ""
+}
+
 func verifUnhex(s string) []byte {
 	if s == "-" || s == "" {
 		return nil
@@ -130,7 +138,7 @@ type verifGenFunc func(outAbs string, marker string, mc []byte, items map[string
 
 // run one history; gen performs one generation with the code under test
 func verifRunHist(out, marker, init, steps string, gen verifGenFunc, norm func(string, []byte) []byte) string {
-	top, err := os.MkdirTemp("", "verif-outdir-")
+	top, err := os.MkdirTemp(verifScratch(), "verif-outdir-")
 	if err != nil {
 		return "harness-error " + err.Error()
 	}
